@@ -41,6 +41,11 @@ def _build(entry, via, cls, td, seed):
         if via == 'lib':
             return 'ok', xf.library_call(entry, _classes()[cls])
         argv = xf.concrete_argv(entry, td)
+        if via == 'cliseed':
+            # the tools' own --seed option: the ambient generator state differs between the two tools on purpose,
+            # so only the seed given on the command line can make the two renderings agree
+            random.seed(seed * 7919 + (11 if cls == 'cnf' else 23))
+            argv = ['--seed', str(seed)] + argv
         if cls == 'cnf':
             from cnfgen.clitools.cnfgen import cli
             return 'ok', cli(['cnfgen', '-q'] + argv, mode='formula')
@@ -138,18 +143,23 @@ def bounded_pairs(ctx):
         tasks.append((e, 'cli', ctx.seed))
     for e in real:
         tasks.append((e, 'cli', ctx.seed))
+    # random instances through the tools' --seed option (seed 0 included)
+    seeded = [e for e in small + real if e.get('seeded')]
+    for e in seeded[:(60 if thorough else 24)]:
+        for sd in (0, 1, 42):
+            tasks.append((e, 'cliseed', sd))
     res = _map(tasks)
     skipped = {}
     big = 0
     for (entry, via, seed), problems in zip(tasks, res):
-        ctx.case(('pair', entry['id'], via), nontrivial=(entry['nvars'] or 1) > 0)
+        ctx.case(('pair', entry['id'], via, seed if via == 'cliseed' else None), nontrivial=(entry['nvars'] or 1) > 0)
         if (entry['nvars'] or 0) > TABLE_LIMIT:
             big += 1
         for aspect, what in problems:
             if aspect == 'skipped':
                 skipped['{} {}'.format(via, ' '.join(map(str, entry['argv'])))] = what
                 continue
-            tool = {'lib': 'lib', 'cli': 'pbgen'}[via]
+            tool = {'lib': 'lib', 'cli': 'pbgen', 'cliseed': 'pbgen-seed'}[via]
             ctx.violation('{}:{}:{}'.format(aspect, entry['family'], tool),
                           '{} {} {}: {}'.format(via, ' '.join(map(str, entry['argv'])),
                                                 [(g['type'], g.get('cli') or g['edges']) for g in entry['graphs']] or '', what),
